@@ -299,6 +299,14 @@ theorem readers_noub (m : RawMap K V) (lo hi : Bound K) (a b : Option K) (k : K)
 
 /-! ### validators -/
 
+/-- **C15, public positioned constructors.** `RangeIterator::new_with_skip_owned` and
+    `ItemIterator::new_from_position_with_bounds` are safe public functions that take an arbitrary
+    `(leaf id, index)`; started anywhere, on any raw map, with or without `skip_first`, draining them performs no
+    unchecked access outside its precondition. -/
+theorem positioned_noub (m : RawMap K V) (info : Option (Nat × Nat)) (skip : Bool) (hi : Bound K) (leafId idx : Nat) (e : Bound K) :
+    NoUB (m.rangeFrom Cfg.repaired info skip hi) ∧ NoUB (m.itemsFromPos Cfg.repaired leafId idx e) :=
+  ⟨drain_noub _ (rangeNext_noub _ rfl m _) _ _, drain_noub _ (itemNext_noub _ rfl m _) _ _⟩
+
 theorem allRes_noub {α : Type} (p : α → Res Bool) : ∀ (l : List α), (∀ a ∈ l, NoUB (p a)) → NoUB (allRes p l)
   | [], _ => NoUB.ok _
   | a :: as, h => NoUB.bind (h a List.mem_cons_self) (fun b => by
